@@ -258,9 +258,10 @@ func (g *fmtGen) container(depth int, _ string) *fmtVal {
 func init() {
 	fmtStructFields["S1"] = [][2]string{{"A", "int"}, {"Name", "string"}, {"Ok", "bool"}, {"F", "float64"}, {"B", "uint8"}}
 	fmtStructFields["S2"] = [][2]string{{"X", "int8"}, {"In", "*S1"}}
+	fmtStructFields["S3"] = [][2]string{{"B", "uint8"}, {"Name", "string"}, {"Z", "int"}, {"A", "int"}, {"X", "int8"}}
 }
 
-const fmtStructDecls = "type S1 struct {\n\tA    int\n\tName string\n\tOk   bool\n\tF    float64\n\tB    uint8\n}\n\ntype S2 struct {\n\tX  int8\n\tIn *S1\n}\n\n"
+const fmtStructDecls = "type S1 struct {\n\tA    int\n\tName string\n\tOk   bool\n\tF    float64\n\tB    uint8\n}\n\ntype S2 struct {\n\tX  int8\n\tIn *S1\n}\n\n// the field names of S1 again, in another order, next to a new one: fields print in the order of THIS declaration\ntype S3 struct {\n\tB    uint8\n\tName string\n\tZ    int\n\tA    int\n\tX    int8\n}\n\n"
 
 func checkC14(c *Ctx) {
 	c.Rule = "values = seeded random typed value trees: booleans, integers of every width at their boundaries, float64 from <=15 shortest digits x 21 decimal exponents (+ integer-valued, 0, and computed NaN/+-Inf/-0), strings (empty, spaces, non-ASCII, invalid UTF-8, bracket look-alikes, percent signs and format verbs, quotes), homogeneous slices and single-entry/empty maps nested to depth D, struct references with scalar fields (alone, nested one level, inside slices); each printed through println, fmt.Println with two operands, fmt.Print, fmt.Sprint and Value.String; cyclic graphs (slice, map, struct, mixed, nested in other containers) rendered in a child process; distinct_nontrivial = distinct values that are containers or floats"
@@ -278,7 +279,7 @@ func checkC14(c *Ctx) {
 		case 2:
 			v = g.ofType("*S1", 1)
 		case 3:
-			v = g.ofType([]string{"*S2", "[]*S1", "map[string]*S1"}[r.Intn(3)], 2)
+			v = g.ofType([]string{"*S2", "[]*S1", "map[string]*S1", "*S3", "[]*S3"}[r.Intn(5)], 2)
 		default:
 			v = g.container(1+r.Intn(depth), "")
 		}
@@ -313,6 +314,13 @@ func checkC14(c *Ctx) {
 			fmt.Fprintf(&b, "var V%d %s = %s\n", i, vals[i].goTy, vals[i].lit)
 		}
 		b.WriteString("\nfunc Main() {\n")
+		// history before printing: a key that is not in the map is inserted and deleted again (every second map), which
+		// must leave no trace in the text
+		for i := lo; i < hi; i++ {
+			if k := c14FreshKey(vals[i]); k != "" && i%2 == 0 {
+				fmt.Fprintf(&b, "\tV%d[%s] = V%d[%s]\n\tdelete(V%d, %s)\n", i, k, i, k, i, k)
+			}
+		}
 		for i := lo; i < hi; i++ {
 			fmt.Fprintf(&b, "\tprintln(V%d)\n\tfmt.Print(V%d)\n\tfmt.Println()\n\tprintln(fmt.Sprint(V%d))\n", i, i, i)
 			fmt.Fprintf(&b, "\tprintln(fmt.Sprintf(\"%%v\", V%d))\n", i)
@@ -590,4 +598,37 @@ func c14UntypedOK(v *fmtVal) bool {
 		return (v.T == "int" || v.T == "flt" || v.T == "str" || v.T == "bool") && !strings.Contains(v.lit, "(")
 	}
 	return false
+}
+
+// c14FreshKey: for a top-level map value, the source text of a key the map does not hold ("" for other values)
+func c14FreshKey(v *fmtVal) string {
+	if !strings.HasPrefix(v.goTy, "map[") {
+		return ""
+	}
+	kt := v.goTy[4:strings.Index(v.goTy, "]")]
+	switch kt {
+	case "string":
+		return "\"\\x01fresh\""
+	case "int":
+		if v.K != nil && v.K.V == 7777 {
+			return "7778"
+		}
+		return "7777"
+	case "uint8":
+		if v.K != nil {
+			return fmt.Sprint((v.K.V + 1) % 256)
+		}
+		return "9"
+	case "bool":
+		if v.K != nil {
+			return fmt.Sprint(!v.K.B)
+		}
+		return "true"
+	case "float64":
+		if v.K != nil && v.K.lit == "12345.5" {
+			return ""
+		}
+		return "12345.5"
+	}
+	return ""
 }
